@@ -332,7 +332,7 @@ func (w *world) release(a int) sysh.Obs {
 	n := -1
 	for i := 0; i < 100; i++ {
 		time.Sleep(3 * time.Millisecond)
-		if c := w.s.Bess.Count(); c == n {
+		if c := w.dpCount(); c == n {
 			break
 		} else {
 			n = c
@@ -402,6 +402,15 @@ func (w *world) resp(a int, m message.Message) sysh.Obs {
 	o := w.observe(replies, barrier, m.Sequence(), false)
 	w.emit(fmt.Sprintf("resp/%d", m.MessageType()), true, map[string]interface{}{"k": "resp", "a": a, "type": m.MessageType(), "obs": o})
 	return o
+}
+
+// dpCount is the number of commands / Write RPCs the datapath servers have received (to wait until they are quiet).
+func (w *world) dpCount() int {
+	n := w.s.Bess.Count()
+	if w.s.P4 != nil {
+		n += w.s.P4.Count()
+	}
+	return n
 }
 
 func (w *world) close() {
